@@ -44,5 +44,6 @@ def run(ctx):
     std = [c for c in cfgs if c not in ("portable1", "asm-nostd", "neon1")]
     ctx.run_rule("LZ", r_state.rule_LZ, std)
     ctx.run_rule("I2", r_io.rule_I2, std)
+    ctx.run_rule("I4", r_io.rule_I4, std)
     ctx.run_rule("I1", r_io.rule_I1, std)
     ctx.run_rule("I3", r_io.rule_I3, [c for c in std if c.endswith("-full")])
